@@ -333,6 +333,31 @@ def float32_dictionary(ck, tier, seed):
         elif abs(X - T_) >= tiny and abs(d_ / S) >= tiny and abs(xf - (X - T_) / S) > u * (2 + u) * abs((X - T_) / S):
             ck.finding("precision:float32-error-bound-violated:an_inverse_out", "scale %r shift %r y %r" % (float(scale), float(sh_), float(x)),
                        {"search": "float32-dictionary", "k": k, "seed": seed})
+    # the conditional normal's sampler: mean + std * noise, the noise reproduced from the generator seed
+    for k in range(n):
+        mag = 10.0 ** float(torch.randint(-5, 6, (1,), generator=g))
+        mean_, ls_ = float(torch.randn(1, generator=g)) * mag, float(torch.randn(1, generator=g)) * 1.5
+        ctx = torch.tensor([[mean_, ls_]], dtype=torch.float32)
+        sd_seed = int(torch.randint(0, 2 ** 31 - 1, (1,), generator=g))
+        with torch.no_grad():
+            torch.manual_seed(sd_seed)
+            smp = attempt(d.sample, 1, ctx)
+            torch.manual_seed(sd_seed)
+            noise = torch.randn(1, 1)
+            std32 = torch.exp(ctx[0, 1])
+        ck.case(("c19-f32dict-cdn", k), nontrivial=True)
+        if smp[0] != "ok":
+            continue
+        Mq, Sq, Nq = Fraction(float(ctx[0, 0])), Fraction(float(std32)), Fraction(float(noise[0, 0]))
+        pr = rnd32_exact(Sq * Nq)
+        yf = rnd32_exact(Mq + pr)
+        nb += 1
+        got_ = Fraction(float(smp[1].reshape(-1)[0]))
+        if got_ != yf:
+            mism.append({"formula": "cdn_sample", "mean": float(Mq), "std": float(Sq), "noise": float(Nq), "model": float(yf), "impl": float(got_)})
+        elif abs(Sq * Nq) >= tiny and abs(pr + Mq) >= tiny and abs(yf - (Mq + Sq * Nq)) > u * (2 + u) * abs(Sq * Nq) + u * abs(Mq):
+            ck.finding("precision:float32-error-bound-violated:cdn_sample", "mean %r std %r noise %r" % (float(Mq), float(Sq), float(Nq)),
+                       {"search": "float32-dictionary", "k": k, "seed": seed})
     # BatchNorm in evaluation mode: weight * ((x - mean) / sqrt(var + eps)) + bias, six rounded operations
     from nflows.transforms.normalization import BatchNorm
     import math as _m
@@ -388,7 +413,7 @@ def float32_dictionary(ck, tier, seed):
         if min(small) >= tiny and abs(yf - (Mt + Bq)) > 8 * u * (1 + u) * abs(Mt) + u * (abs(Mt) + abs(Bq)) + Fraction(1, 2 ** 150):
             ck.finding("precision:float32-error-bound-violated:bn_forward_out", "weight %r bias %r mean %r var %r x %r" % (float(w32), bias, mean, var, x),
                        {"search": "float32-dictionary", "k": k, "seed": seed})
-    ck.correspondence("single-precision dictionary Fops32 (exact rationals + rnd32) vs the float32 ActNorm / BatchNorm modules, bit for bit", nb, mism)
+    ck.correspondence("single-precision dictionary Fops32 (exact rationals + rnd32) vs the float32 ActNorm / BatchNorm modules and the conditional normal's sampler, bit for bit", nb, mism)
 
 
 def dense_inverse(ck, tier, seed):
